@@ -45,7 +45,12 @@ def main():
     os.rmdir(wt)
     res = {'mutant': mdir, 'props': {}}
     try:
-        rc, out = sh(['git', '-C', '/repo', 'worktree', 'add', '--detach', wt, 'HEAD'])
+        import time, random
+        for attempt in range(8):
+            rc, out = sh(['git', '-C', '/repo', 'worktree', 'add', '--detach', wt, 'HEAD'])
+            if rc == 0:
+                break
+            time.sleep(0.5 + random.random() * 2)
         assert rc == 0, out
         os.makedirs(os.path.join(wt, '_out', 'm'))
         shutil.copy(os.path.join(mdir, 'demo.py'), os.path.join(wt, '_out', 'm', 'demo.py'))
@@ -53,7 +58,7 @@ def main():
         demo = os.path.join(wt, '_out', 'm', 'demo.py')
         # the demos were written for their own worktree path: rewrite it
         src = open(demo).read()
-        src = re.sub(r'/tmp/wt_C\d+', wt, src)
+        src = re.sub(r'/tmp/wt2?_C\d+', wt, src)
         open(demo, 'w').write(src)
         rc, out = sh([PY, demo], cwd=wt, env=env, timeout=900)
         res['demo_clean_rc'] = rc
